@@ -20,7 +20,7 @@ BUDGET = {
 
 @st.composite
 def c18_case(draw, nmax=24, maxlen=6):
-    case = draw(hist_case(nmax=nmax, maxlen=maxlen, allow_other=True, allow_singular=True))
+    case = draw(hist_case(nmax=nmax, maxlen=maxlen, allow_other=True, allow_singular=True, user_ws=True))
     # value changes must not depend on the factorization state (the fresh run repeats them without the prefix)
     ops = [o.replace("vals=pivbreak", "vals=flip").replace("vals=pivkeep", "vals=redraw") for o in case["ops"]]
     # make sure a VALUES-neutral probe can be replayed alone: undo value changes is impossible, so the probe alone runs on the values
